@@ -81,6 +81,8 @@ def body(tid, kind, arg=None):
             esim.crash(esim.my_proc(), arg if arg is not None else 3, how="crash")
             esim.S.step("task.dead")          # never scheduled again
             raise esim.SimCrash()
+        if kind == "tagged":
+            return ["tagged", tid, seen_as(arg), Tagged(tid)]
         if kind == "pickler":
             from loky.backend.reduction import get_loky_pickler_name
             return ["pickler", tid, get_loky_pickler_name()]
@@ -120,3 +122,23 @@ def fold(*args):
 
 
 fold.__wrapped__ = _fold
+
+
+class Tagged:
+    def __init__(self, v):
+        self.v = v
+
+
+class ArrivedTag:
+    def __init__(self, tag):
+        self.tag = tag
+
+
+def make_reducer(tag):
+    def red(obj):
+        return ArrivedTag, (tag,)
+    return red
+
+
+def seen_as(x):
+    return x.tag if isinstance(x, ArrivedTag) else ("plain" if isinstance(x, Tagged) else "other")
